@@ -24,7 +24,8 @@ except Exception:
 
 PURE_FUNCS = {"get_cache", "get_store", "state_types_registry", "command_registry", "quote", "unquote", "join_key", "key_name", "key_extension", "len", "type", "isinstance", "str", "bool", "int", "float", "repr", "tuple", "list", "dict", "set", "sorted", "min", "max", "any", "all"}
 # methods without side effects in this code base (path constructors, printers, accessors)
-PURE_METHODS = {"path_for_key", "metadata_path_for_key", "to_path", "encode", "get", "segment_name", "is_volatile", "is_dir", "contains",
+PURE_METHODS = {"clone", "copy", "as_dict", "get_metadata", "get_bytes", "decode", "as_bytes", "from_bytes", "listdir", "listdir_keys",
+                "to_root_key", "translate_key", "route_to", "is_supported", "read_only", "parent", "with_name", "joinpath", "path_for_key", "metadata_path_for_key", "to_path", "encode", "get", "segment_name", "is_volatile", "is_dir", "contains",
                 "startswith", "endswith", "split", "join", "lower", "upper", "strip", "items", "keys", "values", "key_name", "key_extension",
                 "default_extension", "identifier", "is_action_request", "is_filename", "is_resource_query", "is_transform_query", "name",
                 "with_suffix", "format", "replace_", "isupper", "exists"}
@@ -174,6 +175,13 @@ def _inline_new_locals(fn, known, limit=None):
                         uses_all = [n for n in ast.walk(fn) if isinstance(n, ast.Name) and n.id == t and isinstance(n.ctx, ast.Load)]
                         if len(uses_rest) != len(uses_all) or not uses_all:
                             continue
+                        if isinstance(st.value, (ast.List, ast.Dict, ast.Set, ast.ListComp, ast.DictComp, ast.SetComp)) or \
+                                (isinstance(st.value, ast.Call) and isinstance(st.value.func, ast.Name) and st.value.func.id in ("list", "dict", "set")):
+                            # a fresh mutable object: substitution is an identity only for a single read that does not go through it
+                            through = any(isinstance(n, (ast.Attribute, ast.Subscript)) and isinstance(n.value, ast.Name) and n.value.id == t
+                                          for s2 in rest for n in ast.walk(s2))
+                            if through or len(uses_all) != 1:
+                                continue
                         operands = {n.id for n in ast.walk(st.value) if isinstance(n, ast.Name)}
                         attrs = {U(n) for n in ast.walk(st.value) if isinstance(n, ast.Attribute)}
                         def rebinds(node):
@@ -201,6 +209,8 @@ def _inline_new_locals(fn, known, limit=None):
                                 # the statement holding the last use: a plain assignment evaluates its value before it stores
                                 if isinstance(s2, ast.Assign) and not any(has_use(tg) for tg in s2.targets):
                                     rebound = rebound or rebinds(s2.value)
+                                elif isinstance(s2, ast.If) and not any(has_use(x) for blk in (s2.body, s2.orelse) for x in blk):
+                                    rebound = rebound or rebinds(s2.test)     # the test is evaluated before either branch runs
                                 else:
                                     rebound = rebound or rebinds(s2)
                         if rebound:
